@@ -167,7 +167,7 @@ pub fn run_case(case: &Value, out: &mut Out) {
     // layouts that only reorder / re-head boxes: the parsed structures equal those of the reference file
     if case["ref_file"].is_array() {
         let rb = from_bytes(&case["ref_file"]);
-        let canon = |r: &Mp4Reader<Sparse>| serde_json::to_string(&json!([crate::dbg::parse(&format!("{:?}", r.ftyp)), crate::dbg::parse(&format!("{:?}", r.moov))])).unwrap_or_default();
+        let canon = |r: &Mp4Reader<Sparse>| serde_json::to_string(&json!([crate::dbg::parse(&format!("{:?}", r.ftyp)), crate::dbg::parse(&format!("{:?}", r.moov)), crate::dbg::parse(&format!("{:?}", r.moofs))])).unwrap_or_default();
         let same = match open_reader(&rb, None) {
             Ok(r0) => {
                 let (a, b) = (canon(&r0), canon(&reader));
@@ -193,6 +193,7 @@ pub fn run_case(case: &Value, out: &mut Out) {
     } else {
         None
     };
+    let size0 = reader.size();
     if let Some(calls) = case["calls"].as_array() {
         for c in calls {
             let t = c["t"].as_u64().unwrap_or(0) as u32;
@@ -228,6 +229,12 @@ pub fn run_case(case: &Value, out: &mut Out) {
                 "movie" => out.ev(movie_event(&reader)),
                 _ => {}
             }
+        }
+        // the reader's own accessors that take no sample id answer the same after the session as before it
+        if !calls.is_empty() {
+            let size1 = reader.size();
+            out.ev(json!({"e":"same","what":"Mp4Reader::size() changed during the session","same": size0 == size1,
+                "detail": [big(size0), big(size1)]}));
         }
         return;
     }
